@@ -17,6 +17,9 @@ pub struct Case {
   /// rule ids in use (each `r-<fn>` has pattern `<fn>($$$A)`)
   pub rules: Vec<String>,
   pub cli: bool,
+  /// bit i set: the i-th enabled rule has a `fix`
+  #[serde(default)]
+  pub fixable: u8,
 }
 
 #[derive(Clone, Debug)]
@@ -33,13 +36,14 @@ pub struct Choice {
   lines: Vec<LineC>,
   rules: u8,
   tail_comment: Option<u8>,
+  fixable: u8,
 }
 
 pub fn strategy() -> BoxedStrategy<Choice> {
   let line = (
     0u8..9,
-    prop::collection::vec(0u8..10, 0..=2),
-    prop::option::weighted(0.45, 0u8..10),
+    prop::collection::vec(0u8..12, 0..=2),
+    prop::option::weighted(0.45, 0u8..12),
     prop::bool::weighted(0.25),
   )
     .prop_map(|(stmt, own, trailing, in_block)| LineC {
@@ -48,12 +52,13 @@ pub fn strategy() -> BoxedStrategy<Choice> {
       trailing,
       in_block,
     });
-  (0u8..8, prop::collection::vec(line, 1..10), 1u8..16, prop::option::weighted(0.2, 0u8..10))
-    .prop_map(|(lang, lines, rules, tail_comment)| Choice {
+  (0u8..8, prop::collection::vec(line, 1..10), 1u8..64, prop::option::weighted(0.2, 0u8..12), any::<u8>())
+    .prop_map(|(lang, lines, rules, tail_comment, fixable)| Choice {
       lang,
       lines,
       rules,
       tail_comment,
+      fixable,
     })
     .boxed()
 }
@@ -81,7 +86,9 @@ const STMTS: &[&str] = &[
   "qux(foo(8))",
 ];
 
-const ALL_RULES: &[&str] = &["r-foo", "r-bar", "r-baz", "r-qux"];
+/// (id, function matched): `r-ba` is a proper prefix of `r-bar` / `r-baz` and fires with `r-bar`;
+/// `r-foo-1` extends `r-foo` and fires with it
+const ALL_RULES: &[(&str, &str)] = &[("r-foo", "foo"), ("r-bar", "bar"), ("r-baz", "baz"), ("r-qux", "qux"), ("r-ba", "bar"), ("r-foo-1", "foo")];
 
 fn comment_body(k: u8) -> &'static str {
   match k {
@@ -93,7 +100,9 @@ fn comment_body(k: u8) -> &'static str {
     6 => "ast-grep-ignore: unknown-rule",
     7 => "ast-grep-ignore: r-qux",
     8 => "just a note",
-    _ => "ast-grep-ignore: r-baz",
+    9 => "ast-grep-ignore: r-baz",
+    10 => "ast-grep-ignore: r-ba",
+    _ => "ast-grep-ignore: r-foo-1, r-bar",
   }
 }
 
@@ -136,13 +145,14 @@ pub fn interpret(ch: &Choice, _st: &mut Stats) -> Option<Case> {
     .iter()
     .enumerate()
     .filter(|(i, _)| ch.rules & (1 << i) != 0)
-    .map(|(_, r)| r.to_string())
+    .map(|(_, r)| r.0.to_string())
     .collect();
   Some(Case {
     lang: crate::langs::name(lang),
     source: out,
     rules,
     cli: false,
+    fixable: ch.fixable,
   })
 }
 
@@ -150,9 +160,11 @@ pub fn rules_yaml(case: &Case) -> String {
   case
     .rules
     .iter()
-    .map(|id| {
-      let f = id.trim_start_matches("r-");
-      format!("id: {id}\nlanguage: {}\nseverity: warning\nrule:\n  pattern: {f}($$$A)\n", case.lang)
+    .enumerate()
+    .map(|(i, id)| {
+      let f = ALL_RULES.iter().find(|r| r.0 == id.as_str()).map(|r| r.1).unwrap_or("foo");
+      let fix = if case.fixable & (1 << i) != 0 { format!("fix: {f}x($$$A)\n") } else { String::new() };
+      format!("id: {id}\nlanguage: {}\nseverity: warning\nrule:\n  pattern: {f}($$$A)\n{fix}", case.lang)
     })
     .collect::<Vec<_>>()
     .join("---\n")
